@@ -4,8 +4,11 @@ from .runner import run_scenario
 from .util import digest
 
 BUDGET = {'quick': 60.0, 'thorough': 600.0}
-BUDGET_SCALE = {'C10': 1.5, 'C03': 1.5, 'C01': 1.25, 'C04': 1.25,
-                'C14': 1.25, 'C02': 1.25, 'C12': 1.25}
+# (a property's budget is split over its campaigns by weight: properties
+# with many campaigns get more wall time)
+BUDGET_SCALE = {'C10': 1.75, 'C03': 1.75, 'C01': 1.5, 'C04': 1.5,
+                'C14': 1.5, 'C02': 1.5, 'C12': 1.5, 'C09': 1.5,
+                'C08': 1.25, 'C13': 1.25, 'C16': 1.25, 'C05': 1.25}
 
 LEVEL = {
     'C02': 'fault_enumeration', 'C14': 'fault_enumeration',
